@@ -31,25 +31,3 @@ fn u04_exid_try_from_total_t() {
     check_exid_total::<12>();
 }
 
-// byte round trip, bounded: 2-byte actor, counter and index hint below 128 (one LEB128 byte each;
-// wider values exhaust CBMC through the Vec-growing writer -- they are covered by the Verus unit)
-#[kani::proof]
-#[kani::unwind(18)]
-fn u04_exid_roundtrip_small() {
-    let ab: [u8; 2] = kani::any();
-    let ctr: u64 = kani::any();
-    let idx: usize = kani::any();
-    kani::assume(ctr < 128 && idx < 128);
-    let c = ExId::Id(ctr, ActorId::from(&ab[..]), idx);
-    let b = c.to_bytes();
-    match ExId::try_from(b.as_slice()) {
-        Ok(ExId::Id(c2, a2, i2)) => {
-            assert!(c2 == ctr);
-            assert!(i2 == idx);
-            assert!(a2.to_bytes() == &ab[..]);
-        }
-        _ => panic!("ExId round trip failed"),
-    }
-    let r = ExId::Root.to_bytes();
-    assert!(matches!(ExId::try_from(r.as_slice()), Ok(ExId::Root)));
-}
